@@ -8,7 +8,16 @@ import time
 
 VERIF = os.path.dirname(os.path.dirname(os.path.abspath(__file__)))
 REPO = os.environ.get('VERIF_REPO', '/repo')
-BUILD = os.path.join(VERIF, '.build')
+BUILD_ROOT = os.path.join(VERIF, '.build')
+# Every tree gets its own build root.  Cargo "uplifts" a finished binary to <target>/debug/<name> whatever workspace it
+# came from, so a target directory shared between /repo and a scratch copy can leave the scratch copy's binary (built
+# from a deliberately broken tree) in place for the next run on /repo -- which then reports the mutant's violation on the
+# unchanged tree.  (That happened once with the wit-bindgen CLI; see DESIGN 9.8.)
+if os.path.realpath(REPO) == '/repo':
+    BUILD = BUILD_ROOT
+else:
+    import hashlib as _h
+    BUILD = os.path.join(BUILD_ROOT, 'scratch', _h.md5(os.path.realpath(REPO).encode()).hexdigest()[:8])
 # Evidence and replay files under /verif describe /repo only.  A run pointed at a scratch copy
 # (VERIF_REPO=..., used by the mutation self-test) writes them under .build/scratch-out instead, so a
 # record of a deliberately broken tree can never end up in the committed evidence directory.
